@@ -3,6 +3,7 @@
 Extents: (offset, length, kind, arg)
   kind "bytes": arg = literal bytes (len == length)
   kind "pat":   arg = file id f; content = patterns.pat(f, file_offset, n)  (location-coded by *file offset*)
+  kind "fn":    arg = callable(offset_in_extent, n) -> bytes (lazily generated content, e.g. compressed clusters)
 Bytes outside extents read as zeros.  Mutating methods are refused and recorded (C09).
 """
 from __future__ import annotations
@@ -96,6 +97,8 @@ class VirtualFile(io.RawIOBase):
                 out.append(arg[cur - eo : cur - eo + take])
             elif kind == "pat":
                 out.append(patterns.pat(arg, cur, take))
+            elif kind == "fn":  # lazily generated: arg(offset_in_extent, n) -> bytes
+                out.append(arg(cur - eo, take))
             else:
                 raise ValueError(kind)
             cur += take
